@@ -209,6 +209,67 @@ pub fn run(ctx: &mut Ctx) {
         }
         path_case(ctx, &parser, &format!("path{}", len + 1), r, idx, false, &d);
     }
+    // --- paths through a re-bound root: the innermost binding of the root decides every later step;
+    // a member only the shadowed (outer) value has does not exist ---
+    {
+        use liquid_core::model::ValueView;
+        let sources: Vec<Expr> = vec![var("plain"), var("o"), var("n"), var("str"), path("o", &["k"]), path("o", &["xs"]), path("a", &["first"]), lit_i(5), lit_s("txt"), var("arrkey"), Expr::Lit(Value::Nil)];
+        let probes: Vec<Vec<Expr>> = vec![
+            vec![lit_s("xs")], vec![lit_s("p")], vec![lit_s("k")], vec![lit_s("size")], vec![lit_s("first")], vec![lit_i(0)], vec![lit_i(-1)], vec![lit_i(4)],
+            vec![lit_s("k"), lit_s("deep")], vec![lit_s("xs"), lit_i(1)], vec![lit_s("deep"), lit_i(0)], vec![var("key_xs")], vec![lit_s("one"), lit_s("first")],
+        ];
+        for target in ["o", "a", "plain", "str", "fresh"] {
+            for src in &sources {
+                let newv = match src {
+                    Expr::Lit(v) => Some(Ok(v.clone())),
+                    Expr::Var(r, sub) => spec_path(&d, r, sub),
+                };
+                let newv = match newv {
+                    Some(Ok(v)) => v,
+                    _ => continue,
+                };
+                let mut eff = d.clone();
+                eff.insert(target.to_string().into(), newv.clone());
+                for idx in &probes {
+                    // by assignment
+                    let t = vec![Node::Assign(target.into(), src.clone(), vec![]), text("<"), out(Expr::Var(target.into(), idx.clone())), text(">")];
+                    let obs = render_text(&parser, &src_tmpl(&t), &d);
+                    let mut k = "shadow-assign".to_string();
+                    match (spec_path(&eff, target, idx), &obs) {
+                        (Some(Ok(v)), Obs::Ok(s)) if *s == format!("<{}>", v.render()) => {}
+                        (Some(Err(())), Obs::Err(_)) => {}
+                        (None, _) => {}
+                        _ => k = "PATHLAW:shadow-assign".to_string(),
+                    }
+                    ctx.emit(render_case("c07r", &k, &t, &d, &[], &obs));
+                    // by a loop variable (one iteration over a one-element array holding the new value)
+                    if newv.is_nil() {
+                        continue;
+                    }
+                    let mut d2 = d.clone();
+                    d2.insert("one_elem".into(), Value::Array(vec![newv.clone()]));
+                    let t = vec![Node::For {
+                        x: target.into(),
+                        rng: RangeE::Arr(var("one_elem")),
+                        limit: None,
+                        offset: None,
+                        rev: false,
+                        body: vec![text("<"), out(Expr::Var(target.into(), idx.clone())), text(">")],
+                        els: None,
+                    }];
+                    let obs = render_text(&parser, &src_tmpl(&t), &d2);
+                    let mut k = "shadow-for".to_string();
+                    match (spec_path(&eff, target, idx), &obs) {
+                        (Some(Ok(v)), Obs::Ok(s)) if *s == format!("<{}>", v.render()) => {}
+                        (Some(Err(())), Obs::Err(_)) => {}
+                        (None, _) => {}
+                        _ => k = "PATHLAW:shadow-for".to_string(),
+                    }
+                    ctx.emit(render_case("c07r", &k, &t, &d2, &[], &obs));
+                }
+            }
+        }
+    }
     // --- the public `find` called directly (no runtime in front of it): every path of length 0..2 over
     // keys that exist, keys that do not, indices in and out of range ---
     {
